@@ -840,7 +840,10 @@ def t14_normalise_before_use(ctx, modules: Tuple[str, ...], rule_id: str = "T14"
         for st in f.body if True else []:
             pass
         for st in walk_local(f):
-            if not (isinstance(st, ast.If) and not st.orelse and len(st.body) == 1):
+            if not (isinstance(st, ast.If) and not [x for x in st.orelse if not isinstance(x, ast.Pass)]):
+                continue
+            real = [x for x in st.body if not isinstance(x, ast.Pass)]
+            if len(real) != 1:
                 continue
             test = st.test
             if isinstance(test, ast.UnaryOp) and isinstance(test.op, ast.Not):
@@ -850,8 +853,8 @@ def t14_normalise_before_use(ctx, modules: Tuple[str, ...], rule_id: str = "T14"
             p = test.args[0].id
             if p not in params:
                 continue
-            b = st.body[0]
-            t, v = (b.targets[0], b.value) if isinstance(b, ast.Assign) and len(b.targets) == 1 else (None, None)
+            b = real[0]
+            t, v = (b.targets[0], b.value) if isinstance(b, ast.Assign) and len(b.targets) == 1 else ((b.target, b.value) if isinstance(b, ast.AnnAssign) else (None, None))
             if not (isinstance(t, ast.Name) and t.id == p and isinstance(v, ast.Call) and any(isinstance(x, ast.Name) and x.id == p for a in v.args for x in ast.walk(a))):
                 continue
             if C.block_path(f, st)[-1][0] is not f:
